@@ -122,3 +122,50 @@ Proof.
   - (* Complement *) simpl in Hwf. apply andb_prop in Hwf. destruct Hwf.
     rewrite (IHS1 a p), (IHS2 a p); auto.
 Qed.
+
+(* ------------------------------------------------------------------ finite sets *)
+Lemma in_finite_same : forall r l p, same_elems r l -> in_finite r p = in_finite l p.
+Proof. intros r l p H. unfold in_finite. apply existsb_same_elems. exact H. Qed.
+Lemma in_finite_app : forall a b p, in_finite (a ++ b) p = in_finite a p || in_finite b p.
+Proof. intros. unfold in_finite. apply existsb_app. Qed.
+
+Definition at_pos (a : number) (p : point) : bool := match cmp_np a p with Eq => true | _ => false end.
+Lemma at_pos_eq : forall a p, at_pos a p = true -> npos a =p ppos p.
+Proof.
+  intros a p H. unfold at_pos in H. rewrite cmp_np_pos in H. apply PosO.eq_iff.
+  destruct (pos_cmp (npos a) (ppos p)); try discriminate; reflexivity.
+Qed.
+Lemma at_pos_iff : forall a p, at_pos a p = true <-> npos a =p ppos p.
+Proof.
+  intros a p. split; [apply at_pos_eq|]. intro H. apply PosO.eq_iff in H.
+  unfold at_pos. rewrite cmp_np_pos, H. reflexivity.
+Qed.
+Lemma in_finite_cons' : forall a l p, in_finite (a :: l) p = at_pos a p || in_finite l p.
+Proof. reflexivity. Qed.
+
+Lemma in_finite_filter : forall (f : number -> bool) (b : point -> bool) l p,
+    (forall a, In a l -> at_pos a p = true -> f a = b p) ->
+    in_finite (filter f l) p = in_finite l p && b p.
+Proof.
+  induction l as [|a t IH]; intros p H; [reflexivity|].
+  assert (IH' : in_finite (filter f t) p = in_finite t p && b p).
+  { apply IH. intros a' Ha'. apply H. right; exact Ha'. }
+  cbn [filter]. rewrite (in_finite_cons' a t p). destruct (at_pos a p) eqn:Ep.
+  - rewrite (H a (or_introl eq_refl) Ep). destruct (b p) eqn:Eb; cbn [andb orb].
+    + rewrite in_finite_cons', Ep. reflexivity.
+    + rewrite IH'. apply andb_false_r.
+  - cbn [orb]. destruct (f a); [rewrite in_finite_cons', Ep; cbn [orb]|]; exact IH'.
+Qed.
+Lemma forallb_filter_ok : forall (f : number -> bool) l, forallb num_ok l = true -> forallb num_ok (filter f l) = true.
+Proof.
+  induction l as [|x t IH]; intro H; simpl in *; [reflexivity|].
+  apply andb_prop in H. destruct H as [Hx Ht]. destruct (f x); simpl; [rewrite Hx|]; auto.
+Qed.
+
+(* a finite set of the fragment only has rational members *)
+Lemma in_finite_rationals : forall l p, forallb num_ok l = true -> in_finite l p = true -> in_rationals p = true.
+Proof.
+  intros l p Hl H. unfold in_finite in H. apply existsb_exists in H. destruct H as [a [Ha Hp]].
+  assert (Hap : at_pos a p = true) by exact Hp. apply at_pos_eq in Hap.
+  destruct (pos_eq_at a p (forallb_In _ _ _ Hl Ha) Hap) as [q [v [-> _]]]. reflexivity.
+Qed.
